@@ -20,7 +20,8 @@ RULE = ("cells = interface x kernel x target x scale; inside a cell ALL (history
         "the stated alphabets are executed on the real sampler with a symbolic uniform and the complete "
         "decision tree of the transition is enumerated; a cell is non-trivial when at least one transition "
         "had an acceptance probability strictly between 0 and 1")
-BOUND = {"quick": "dims 1-2; 3 scales; 4 states per target; noise lattice {-1.5,-.5,.5,1.5}^d (d=1), 8 answers (d=2); "
+BOUND = {"quick": "(+ block-in-HybridGibbs history for MH/PCN: all accept/reject patterns of 3 sweeps, 2 scales x 2 starts; + tuple target form of the "
+                  "legacy pCN; + integer-dtype initial points; + zero-density current states; + user proposal with undeclared symmetry) dims 1-2; 3 scales; 4 states per target; noise lattice {-1.5,-.5,.5,1.5}^d (d=1), 8 answers (d=2); "
                   "histories: fresh, warm-up Nb=2 under all accept/reject patterns (<=1 deviation for CWMH), reload",
          "thorough": "dims 1-3; 3 scales + vector scale; 5 states; full lattice d<=2, 14 answers d=3; warm-up Nb<=3"}
 ASSUMPTIONS = [
@@ -396,6 +397,8 @@ def eval_cell(cell):
         comp += "(target=%s)" % cell["form"]
     if cell.get("x0rep"):
         comp += "(x0=%s)" % cell["x0rep"]
+    if cell["scale"] == "userprop-shifted":
+        comp += "(proposal=user,symmetry-undeclared)"
     fails = {}   # (op) -> {hist kinds}; first (message, focus, detail) per (op, hist)
     nontriv = False
 
